@@ -40,12 +40,18 @@ TEnd == /\ Ev.ev = "end"
                    ELSE IF Ev.completed = 1 /\ Ev.left # queue THEN "C13_Q1_items_not_exactly_once_in_order"
                    ELSE "ok")
         /\ UNCHANGED <<queue, ch, pe, nbeh>>
+\* free-running stress: at quiescence nothing may be left behind without a wake-up, and every
+\* item must have been delivered exactly once
+TStress == /\ Ev.ev = "stress"
+           /\ Verdict(IF Ev.left # 0 THEN "C13_Q2_lost_wakeup_at_quiescence"
+                      ELSE IF Ev.got # Ev.total THEN "C13_Q1_items_not_exactly_once_in_order" ELSE "ok")
+           /\ UNCHANGED <<queue, ch, pe, nbeh>>
 TSkip == skip /\ Ev.ev \notin {"New", "end"} /\ UNCHANGED <<queue, ch, pe, nbeh, nbad, skip>>
 \* the end-of-schedule judgement is made even after an earlier failure of the same schedule
 TEndSkipped == skip /\ Ev.ev = "end" /\ UNCHANGED <<queue, ch, pe, nbeh, nbad, skip>>
 
 Step == /\ l <= Len(Trace)
-        /\ (TNew \/ TSkip \/ TEndSkipped \/ (~skip /\ (TPut \/ TSig \/ TWait \/ TGet \/ TStuck \/ TEnd)))
+        /\ (TNew \/ TSkip \/ TEndSkipped \/ (~skip /\ (TPut \/ TSig \/ TWait \/ TGet \/ TStuck \/ TEnd \/ TStress)))
         /\ l' = l + 1 /\ UNCHANGED done
 Finish == /\ l = Len(Trace) + 1 /\ ~done /\ done' = TRUE
           /\ PrintT(<<"TRACE-DONE", l - 1, nbeh, 0, nbad>>)
